@@ -257,6 +257,10 @@ func vDial(addr string) (net.Conn, error) {
 		if err == nil || errors.Is(err, syscall.ECONNREFUSED) {
 			return c, err
 		}
+		var ne net.Error
+		if errors.As(err, &ne) && ne.Timeout() && i < 3 {
+			continue // an overloaded machine: try again from another port
+		}
 		if !errors.Is(err, syscall.EADDRINUSE) && !errors.Is(err, syscall.EADDRNOTAVAIL) && !strings.Contains(err.Error(), "bind:") {
 			return nil, err
 		}
